@@ -18,6 +18,7 @@ pub struct C19 {
     menu17: Vec<(String, String)>,
     sets18: Vec<c18::Set>,
     hist_depth: u32,
+    order_depth: u32,
 }
 
 fn word(n: usize, l: L) -> String {
@@ -45,7 +46,8 @@ impl C19 {
             long17: c17::long_seqs(),
             menu17: c17::order_menu(),
             sets18: c18::sets(Tier::Quick).into_iter().filter(|s| tier == Tier::Thorough || matches!(s.l, L::None | L::De | L::Ru)).collect(),
-            hist_depth: tier.pick(2, 3),
+            hist_depth: tier.pick(2, 4),
+            order_depth: tier.pick(3, 4),
         }
     }
     fn judge(&self, cx: &mut Cx, r: Result<(), PanicInfo>, what: impl Fn() -> String) {
@@ -73,9 +75,9 @@ impl Prop for C19 {
         let m17 = self.menu17.len() as u64;
         let mut d = vec![
             Dom::new("damlev:long-families", self.long16.len() as u64, 2),
-            Dom::new("damlev:call-orders<=3", m16 + m16 * m16 + m16 * m16 * m16, 400).note("one fresh instance per history: growth 22 -> 34 -> 52 -> 79 -> 108 in every order"),
+            Dom::new(format!("damlev:call-orders<={}", self.order_depth), seqs_len(m16, 1, self.order_depth), 400).note("one fresh instance per history: growth 22 -> 34 -> 52 -> 79 -> 108 in every order"),
             Dom::new("jaccard:long-families", self.long17.len() as u64, 4),
-            Dom::new("jaccard:call-orders<=3", m17 + m17 * m17 + m17 * m17 * m17, 400),
+            Dom::new(format!("jaccard:call-orders<={}", self.order_depth), seqs_len(m17, 1, self.order_depth), 400),
         ];
         for l in LANGS19 {
             let ops = 18u64;
@@ -111,7 +113,7 @@ impl Prop for C19 {
             }
             1 => {
                 let m = self.menu16.len() as u64;
-                let seq = seq_at(m, 1, 3, idx);
+                let seq = seq_at(m, 1, self.order_depth, idx);
                 let inst = DamerauLevenshtein::new();
                 cx.eval();
                 cx.state();
@@ -154,7 +156,7 @@ impl Prop for C19 {
             }
             3 => {
                 let m = self.menu17.len() as u64;
-                let seq = seq_at(m, 1, 3, idx);
+                let seq = seq_at(m, 1, self.order_depth, idx);
                 let inst: Jaccard<char> = Jaccard::new();
                 cx.eval();
                 cx.state();
